@@ -101,7 +101,15 @@ def run(ctx):
     rots = [None]
     g = tlc.run("Gen_Geometry", "Gen_Geometry.cfg", workers=1, timeout=600)
     allrots = sorted({(tuple(m["p"]), tuple(m["s"])) for m in g.printed})
-    rots += allrots if ctx.thorough() else rng.sample(allrots, 5)
+    if ctx.thorough():
+        rots += allrots
+    else:
+        # one rotation per image of the x axis (the first neighbour lies along it): every coordinate axis, both senses
+        from . import c04 as _c04
+        by_image = {}
+        for p_, s_ in allrots:
+            by_image.setdefault(_c04.rot_fn(list(p_), list(s_))((1, 0, 0)), []).append((p_, s_))
+        rots += [rng.choice(v_) for _, v_ in sorted(by_image.items())]
     recs, metas = [], []
     bad = {}
     for c in r.printed:
@@ -203,6 +211,10 @@ def run(ctx):
     cx, cy, cz = C.centroid(fl)
     structures.append(("frag-3SGB-E0+40 across x=-100", C.join(C.translate(fl, -100000 - cx, 0, 0))))
     structures.append(("frag-3SGB-E0+40 across y=+1000 z=-100", C.join(C.translate(fl, 0, 1000000 - cy, -100000 - cz))))
+    # ... and with occupancy 0.00 on a fifth of its atoms (model-built atoms): the residues are as complete as before
+    structures.append(("frag-3SGB-E0+40 occupancy 0.00 on every fifth atom",
+                       C.join([(ln.ljust(60)[:54] + "  0.00" + ln.ljust(80)[60:]) if (C.is_atom(ln) and k_ % 5 == 2) else ln
+                               for k_, ln in enumerate(fl)])))
     # the program's own hydrogens written back under the old naming convention (HD21 -> 1HD2, HH12 -> 2HH1 ...) and NOT
     # kept: they are input hydrogens like any others, dropped when reading, and every complement is built afresh
     from . import c07 as _c07
